@@ -69,6 +69,16 @@ func c17Keys() []c17Key {
 	ks = append(ks, c17Key{Name: "ecdsa-P-384-point-labelled-P-256", Pub: &ecdsa.PublicKey{Curve: elliptic.P256(), X: g384.X, Y: g384.Y}, Family: "ec"})
 	ed := ed25519.NewKeyFromSeed([]byte("c17-ed25519-seed-of-32-bytes!!!!"))
 	ks = append(ks, c17Key{Name: "ed25519", Pub: ed.Public(), Priv: ed, Family: "ed"})
+	// the same keys reachable only through the crypto.Signer interface (HSM / KMS handle, wrapper
+	// struct, pointer): the family is what Public() reports
+	ks = append(ks, c17Key{Name: "ed25519-opaque", Pub: ed.Public(), Priv: opaqueSigner{ed}, Family: "ed"})
+	ks = append(ks, c17Key{Name: "ed25519-pointer", Pub: ed.Public(), Priv: &ed, Family: "ed"})
+	r2048 := fixtures.RSA("rsa2048")
+	ks = append(ks, c17Key{Name: "rsa2048-opaque", Pub: &r2048.PublicKey, Priv: opaqueSigner{r2048}, Family: "rsa", RSAOK: true})
+	r1024 := fixtures.RSA("rsa1024")
+	ks = append(ks, c17Key{Name: "rsa1024-opaque", Pub: &r1024.PublicKey, Priv: opaqueSigner{r1024}, Family: "rsa"})
+	p256 := ecKeyOn(elliptic.P256(), "c17-opaque")
+	ks = append(ks, c17Key{Name: "ecdsa-P-256-opaque", Pub: &p256.PublicKey, Priv: opaqueSigner{p256}, Family: "ec", ECDHOK: true})
 	// foreign key types
 	edPub := ed.Public().(ed25519.PublicKey)
 	xk, _ := ecdh.X25519().NewPrivateKey(make([]byte, 32))
